@@ -6,7 +6,8 @@
 From Coq Require Import ZArith List Bool.
 From stdpp Require Import gmap.
 From VF Require Import Base.Corr Base.SetSum Model.Partition Model.PartitionInv
-  Proofs.Partition_base Proofs.Partition_lemmas.
+  Model.Deadline Model.DeadlineInv Proofs.Partition_base Proofs.Partition_lemmas
+  Proofs.Deadline_lemmas.
 Import ListNotations.
 Open Scope Z_scope.
 
@@ -73,6 +74,50 @@ Proof. exact rejected_unchanged. Qed.
 Theorem C04_quant_up_idempotent : forall qs e,
   0 < q_unit qs -> quant_up qs (quant_up qs e) = quant_up qs e.
 Proof. exact quant_up_idem. Qed.
+
+(* ---------- deadline level (Model/Deadline.v, Model/DeadlineInv.v) ----------
+   DeadlineInv: every partition satisfies PartInv; partitions hold pairwise disjoint sectors;
+   live_sectors = Σ|sectors∖terminated|, total_sectors = Σ|sectors|, faulty_power = Σ faulty_power,
+   live_power = Σ live_power, daily_fee = Σ fee(live sectors); early_terminations = the partitions
+   with a non-empty early-termination queue. *)
+Theorem C04_deadlineinv_initial : forall unit off psize,
+  0 < unit -> 0 < psize -> DsInv (dinit unit off psize).
+Proof. exact dsinv_init. Qed.
+
+(* preserved by add_sectors, record_proven_sectors, process_deadline_end, pop_expired_sectors,
+   terminate_sectors, record_faults, declare_faults_recovered, pop_early_terminations (and trivially
+   by allocate / assign).  PARTIAL: the preservation proof for compact_partitions is not done
+   (the operation is modelled and covered by the correspondence check and the monitors);
+   DeadlineExpInv (registration of partition expiration epochs in the deadline queue) is
+   defined in Model/DeadlineInv.v and checked by the monitors only. *)
+Theorem C04_deadlineinv_step_partial : forall st o,
+  DsInv st -> dop_wf st o -> not_compact o -> DsInv (dnext st o).
+Proof. exact dsinv_step_partial. Qed.
+
+Theorem C04_deadlineinv_reachable_partial : forall unit off psize ops,
+  0 < unit -> 0 < psize -> Forall not_compact ops -> dall_wf (dinit unit off psize) ops ->
+  DsInv (drun (dinit unit off psize) ops).
+Proof. exact dsinv_reachable_partial. Qed.
+
+Theorem C04_sector_in_exactly_one_partition : forall qs tbl d n,
+  DeadlineInv qs tbl d -> n ∈ dl_sectors d ->
+  exists i p, parts d !! i = Some p /\ n ∈ sectors p /\
+    forall j q, parts d !! j = Some q -> n ∈ sectors q -> j = i.
+Proof. exact sector_in_exactly_one_partition. Qed.
+
+(* allocate_sector_numbers(DenyCollisions) never accepts an allocated number; allocation only grows *)
+Theorem C04_sector_number_allocated_once : forall alloc nums alloc',
+  allocate_sector_numbers alloc nums false = Ok alloc' -> nums ## alloc /\ alloc' = alloc ∪ nums.
+Proof. exact sector_number_allocated_once. Qed.
+
+Theorem C04_allocated_only_grows : forall st ops, ds_alloc st ⊆ ds_alloc (drun st ops).
+Proof. exact allocated_only_grows_run. Qed.
+
+(* assign_deadlines gives each of the n sectors exactly one deadline, among those offered *)
+Theorem C04_assign_deadlines_spec : forall mp psize n infos l,
+  assign_deadlines mp psize infos n = Ok l ->
+  length l = n /\ forall x, In x l -> In x (map di_index infos).
+Proof. exact assign_deadlines_spec. Qed.
 
 (* ---- non-vacuity: a concrete history exercising faults, recoveries, skipped faults, a missed
    PoSt, termination, expiry and early-termination processing ---- *)
